@@ -80,7 +80,7 @@ impl QuakeState {
                     skin: q_str(t, 10, false),
                     top: gen::u8_(t),
                     bottom: gen::u8_(t),
-                    address: (version != 1 && t.draw(DATA, 2) == 1).then(|| format!("{}.{}.{}.{}:{}", gen::u8_(t), gen::u8_(t), gen::u8_(t), gen::u8_(t), gen::u16_(t))),
+                    address: (version != 1 && t.draw(DATA, 2) == 1).then(|| if t.draw(DATA, 5) == 0 { (*t.pick(DATA, &["loopback", "bot", "localhost", "[::1]:27960", ""])).to_string() } else { format!("{}.{}.{}.{}:{}", gen::u8_(t), gen::u8_(t), gen::u8_(t), gen::u8_(t), gen::u16_(t)) }),
                 }
             })
             .collect();
